@@ -109,6 +109,20 @@ pub fn rich_asts() -> Vec<File> {
     let tb0 = Clause::TypeBlock { tname: "AWS::X::Y".into(), cond: None, lets: vec![], body: vec![vec![un(vec![key("Properties"), key("p")], UnOp::IsString, false)], vec![un(vec![key("Properties"), key("n")], UnOp::Exists, false), un(vec![key("Properties")], UnOp::Exists, true)]] };
     out.push(file1(rule("r0", vec![vec![tb0.clone()]])));
     out.push(file1(rule("r0", vec![vec![tb0.clone()], vec![un(vec![key("a")], UnOp::Exists, true)]])));
+    // a type block whose body is SKIP for every matched resource
+    let tbs = Clause::TypeBlock { tname: "AWS::X::Y".into(), cond: None, lets: vec![], body: vec![vec![bin(vec![key("Properties"), key("l"), Part::Filter(vec![vec![bin(vec![key("x")], BinOp::Eq, false, i(9))]]), key("x")], BinOp::Eq, false, i(1))]] };
+    out.push(File { lets: vec![], rules: vec![rule("r0", vec![vec![tbs]]), rule("r1", vec![vec![named("r0")]])], default: vec![] });
+    // identifiers that begin with a keyword (order, notes, inner, ...) in every clause position
+    let kwkeys = ["order", "ORacle", "notes", "NOTE", "inner", "INdex", "whenever", "existsx", "emptyx", "somekey", "thisx", "keysx", "letter", "rules", "is_listed", "nullable", "trueish", "or", "not"];
+    let mut lines: Cnf = vec![vec![bin(vec![key("a")], BinOp::Eq, false, i(1))]];
+    for kk in kwkeys {
+        if kk == "or" || kk == "not" {
+            continue;
+        }
+        lines.push(vec![bin(vec![key(kk)], BinOp::Ge, false, i(1))]);
+        lines.push(vec![un(vec![key("a"), key(kk)], UnOp::Exists, true), un(vec![key(kk)], UnOp::Exists, false)]);
+    }
+    out.push(file1(rule("r0", lines)));
     // default-rule clauses
     out.push(File { lets: vec![Let { name: "g".into(), val: Arg::Lit(i(1)) }], rules: vec![], default: vec![vec![bin(a(), BinOp::Eq, false, i(1)), un(vec![key("b")], UnOp::Exists, false)], vec![c5.clone()]] });
     out.push(File { lets: vec![], rules: vec![rule("r0", vec![vec![c2]])], default: vec![vec![c3]] });
@@ -164,7 +178,9 @@ pub fn run(tier: &str) -> i32 {
     let l3 = &b.levels[2];
     asts.extend(l3.iter().step_by((l3.len() / if thorough { 2500 } else { 60 }).max(1)).cloned());
     let docs = docs_quick();
-    let djs: Vec<String> = docs.iter().step_by(4).map(|d| d.json()).collect();
+    let mut djs: Vec<String> = docs.iter().step_by(4).map(|d| d.json()).collect();
+    djs.push(r#"{"a":1,"order":10,"ORacle":0,"notes":1,"NOTE":2,"inner":1,"INdex":1,"whenever":1,"existsx":1,"emptyx":0,"somekey":5,"thisx":1,"keysx":1,"letter":1,"rules":1,"is_listed":1,"nullable":1,"trueish":1,"der":0,"es":0}"#.to_string());
+    djs.push(r#"{"a":{"order":1},"order":0,"der":10}"#.to_string());
     let n = asts.len();
     let res = crate::par::run(n, rep.seed as u64, crate::par::deadline_secs(if thorough { 3000 } else { 45 }), Acc::new, |k, acc| {
         let f = &asts[k];
@@ -286,5 +302,6 @@ fn cfn_docs() -> Vec<String> {
         r#"{"a":1}"#.to_string(),
         r#"{}"#.to_string(),
         r#"{"Resources":{"r1":{"Type":"AWS::X::Y"}},"a":[1]}"#.to_string(),
+        r#"{"Resources":{"r1":{"Type":"AWS::X::Y","Properties":{"l":[{"x":1}]}},"r3":{"Type":"AWS::X::Y","Properties":{"l":[]}}}}"#.to_string(),
     ]
 }
